@@ -412,14 +412,16 @@ func runCase(r *mon.Run, idx int) {
 }
 
 func Run(r *mon.Run) {
-	r.Rule = "each case: one broker, 10-70 numbered operator lines (empty, 1 B-128 KiB, embedded newlines as produced by Ctrl+I inserts, all byte values, invalid UTF-8, format verbs), entered directly or through opshell.ChanWriter, free-running or in lock-step (next line only after the previous was seen written and flushed), while a series of 1-8 shells (uni/bidirectional; writer kinds plain, http.Flusher, FlushError, both) attach and end by context cancel, peer EOF, peer cancel, k-th write failing (complete or short) or k-th flush failing, with lines entered while no shell is attached. The recorded Write/Flush events of all writers, in global order, are replayed against the entered sequence: exact bytes, no gap, no duplicate, no reorder, only a line whose own write failed may be missing, flush before the next line. A final healthy shell must receive everything still queued. distinct = distinct (shell plans, line count, mode, capacity); all are non-trivial (>= 10 lines, >= 1 shell). Engine pty: the real binary on a pseudo-terminal; numbered lines are pasted at the prompt while no shell is attached (fewer than, exactly about, and several hundred more than the 1024 the line queue holds), then a fake shell attaches over raw TLS (/i/{id} or /io) and must read exactly the entered sequence; 2-3 generations per session, each followed by lock-step lines typed with the shell attached. Engine tab: the operator's Tab / Ctrl+I key on the real binary started with -ctrl-i <source>; sources are a single file no converter knows (arbitrary bytes), a single shell-functions file and a directory of .sh/.subr/.pl files, grown so that the generated insert is small, within one byte of 4/8/16/32/64/128 KiB and 1 MiB, in between, several hundred KiB and about 1 MiB; Tab is pressed while no shell is attached (insert held for the next shell) and with a shell attached, right behind a typed line in the same keyboard write, on an empty prompt and in the middle of a half-typed line, with ordinary typed lines before and after; the fake shell (raw TLS, /i/{id} or /io) must receive every typed line once, in the order entered, and every insert as exactly the payload bytes followed by exactly one newline, nothing between or inside; the expected payload bytes are those the same binary prints with -print-ctrl-i for the same source (what the payload is, is another property's business). Engine tabq: the combination and overlap of the two keyboard engines on the real binary started with -ctrl-i <source> (same three kinds of source, grown to 66-130 KiB, 130-400 KiB, 0.4-1.1 MiB and, thorough, 8-60 KiB; detaching sessions 0.2-0.7 MiB, 1-2.2 MiB and 3.5-6 MiB). Sessions of four classes by index: (0) exactly as many lines are pasted as the line queue holds (1024), (1) 1-24 fewer, (3) 1-30 more (the line reader is then stuck before it sees any later key), all while no shell is attached; then Tab is pressed (once, or in a third of the sessions twice in one keyboard write = overlapping inserts; in class 3 sometimes behind one more typed line), 2-5 more lines are typed and in two of three sessions Tab is pressed again (once or twice) between them, all before any shell attaches and all from a goroutine of its own; then a fake shell (raw TLS, /i/{id} or /io) attaches and must receive the pasted lines, then every typed line once and in typed order, and every insert exactly once as the payload followed by exactly one newline with nothing of another entry inside it (an insert is ONE entry), not before the lines typed before its key and, if the terminal had said 'Inserted' for every insert so far before the next line was typed, not after that line; with the shell attached follow a lock-step line, two Tab keys in one write, and a last line. (2) a shell is attached and has read a lock-step line, Tab is pressed, in every other such session 1-3 lines are typed right behind it, the shell reads one line / 2-16 KiB / a third to an eighth of the insert (checked against the payload) and hangs up; after the 'Shell is gone' notice a line is typed, in half of the sessions Tab and another line; the next shell must start at the beginning of an entry - one of the lines typed behind the insert before the gone notice, from which on nothing may be missing, or the first line typed after the notice (or, tolerated, the whole insert once more) - never with the tail of the insert, and must receive everything typed after the notice. Engine gate: who is given the operator's lines when the two halves of a newly arriving request are decided at different moments relative to the leaving of the attached shell. One broker per case; the broker's own schedule points (build tag verif: admit = before the broker lock is taken, release = before a finished half re-takes it, done = lock released, call not yet back in its caller) choose the order. Complete product, 3 (thorough 40) PRNG repetitions each: old shell (none, unidirectional input only / output only / both, bidirectional) x newcomer (one /io request, or an /i and an /o request with a fresh ID), both halves parked at the admission point x which half is decided first x that half's call returning to its caller at once or only after the other half has been decided x the other half decided while the old shell is still attached, inside its tear-down (one half released, the other parked before its release section) or after it has left x how the old shell leaves (input cancelled, output ends, output cancelled, a line's write fails, the /io request's context cancelled); 0-3 numbered lines (payload classes as above, up to 5 KiB) are entered between all steps - one at a time and awaited at a writer while, by the broker's own 'New connection' record, an input is attached, otherwise just queued. Then the newcomer's calls are let go and it hangs up, and the next proper shell (/i or /io) attaches and must be given everything still held and an end marker. Oracle: the replay of all Write/Flush events in global order against the entered sequence as in engine series, plus: the input side of an /io request is not a shell's input stream if it was attached only AFTER the other side of the same request had been refused (already connected / previous shell disconnecting / incorrect key - the operator has been told the connection was rejected); lines written there were taken from the queue and reached no shell (key held-line-given-to-refused-request); an /i request is never discounted for the refusal of an /o request. Whenever the broker reports an input attached, everything entered so far must reach a writer within 10 s with nothing further entered. Engine silence: OPERATOR SILENCE. One shell per case stays attached while the operator enters nothing for 5 s, 12 s, 20 s or 31 s of real time - before the first line, between two lines (1-3 delivered before, 1-3 after) or after the last line before the shell leaves (output ends or the request is cancelled) - at three levels: the broker alone (complete product durations x positions x {/i, /io}; recording writers plain, http.Flusher, FlushError, both, in rotation, thorough: all four; unidirectional with and without an output stream), the real mux on TLS in process (durations x positions; a raw TLS client on /i/{id} or /io counts the body bytes it receives) and the real binary on a pseudo-terminal (lines typed at the prompt; 31 s at each position, thorough: every duration). Lines are what an operator has typed when he falls silent (here-document opened, read/interpreter waiting, empty line) and, below the keyboard, the payload classes of engine series. Every line is awaited at the shell before anything else happens, so at the start of the silence the shell has exactly the entered sequence; after the silence, after every line and after the shell has left it must again have exactly the entered sequence, each line followed by one newline, and not a byte more (key bytes-nobody-entered); at the broker level the shell's writer must not see a Write or Flush call at all during the silence. All cases start together and run beside the other engines; every planned case must complete (floors = the planned numbers)"
-	r.Assumptions = []string{"a line whose flush failed counts as written (the harness writer has already recorded its bytes)", "engine tab: an insert is entered when its key is processed, but it is queued by a goroutine of its own, so a line typed after Tab is ordered behind the insert only once the insert is known to be queued; the engine therefore types the next line only after the terminal has printed the 'Inserted n bytes' notice (printed after queueing, lib/opshell/insert.go) or after the shell has received the insert; a missing notice is not a verdict (a shell is attached instead and must then receive the insert); a line typed before Tab is queued before the key is processed and must precede the insert", "engine tab: the source files do not change between -print-ctrl-i and the key presses", "engine tabq: as for engine tab, an insert whose 'Inserted' notice has not been seen (it cannot be printed while the queue is full) is not ordered with respect to lines typed after its key: it may arrive behind them, but always whole; two inserts pressed in one write are not ordered with respect to each other (same payload); the number of lines the queue holds (1024) only chooses the workload and what the engine waits for, never a verdict", "engine tabq: a line typed behind an insert while the shell that is reading the insert has not yet been reported gone may have been written to that shell's connection without an error; such lines may therefore be missing from the front of what the next shell receives (only as a run from the insert on), and the partially read insert is not owed to the next shell", "engine gate: parking a connect call at a verif schedule point (all three are outside b.mu) only stretches a window that exists between two instructions of that goroutine; the refused half's call is parked only at done, i.e. after the broker has been unlocked and before ConnectInOut learns that its half has returned", "engine gate: a line entered after the harness has begun to end the old shell may go to the old shell or be held - either is a delivery; a step of the choreography itself (a half reaching its gate, a decision being logged) that does not happen within 10 s makes the case inconclusive, not a violation", "engine silence: the length of the silence is workload (how long the harness refrains from entering anything; time.Sleep never returns early), never a verdict; a Flush call on the shell's writer while every entered line has already been written and flushed puts nothing a shell could read onto the stream, but it is traffic on the input stream nobody entered and is reported under its own key flush-without-input; an input stream that the program itself ends during the silence gives no verdict (inconclusive): the property does not say how long a shell stays"}
+	r.Rule = "each case: one broker, 10-70 numbered operator lines (empty, 1 B-128 KiB, embedded newlines as produced by Ctrl+I inserts, all byte values, invalid UTF-8, format verbs), entered directly or through opshell.ChanWriter, free-running or in lock-step (next line only after the previous was seen written and flushed), while a series of 1-8 shells (uni/bidirectional; writer kinds plain, http.Flusher, FlushError, both) attach and end by context cancel, peer EOF, peer cancel, k-th write failing (complete or short) or k-th flush failing, with lines entered while no shell is attached. The recorded Write/Flush events of all writers, in global order, are replayed against the entered sequence: exact bytes, no gap, no duplicate, no reorder, only a line whose own write failed may be missing, flush before the next line. A final healthy shell must receive everything still queued. distinct = distinct (shell plans, line count, mode, capacity); all are non-trivial (>= 10 lines, >= 1 shell). Engine pty: the real binary on a pseudo-terminal; numbered lines are pasted at the prompt while no shell is attached (fewer than, exactly about, and several hundred more than the 1024 the line queue holds), then a fake shell attaches over raw TLS (/i/{id} or /io) and must read exactly the entered sequence; 2-3 generations per session, each followed by lock-step lines typed with the shell attached. Engine tab: the operator's Tab / Ctrl+I key on the real binary started with -ctrl-i <source>; sources are a single file no converter knows (arbitrary bytes), a single shell-functions file and a directory of .sh/.subr/.pl files, grown so that the generated insert is small, within one byte of 4/8/16/32/64/128 KiB and 1 MiB, in between, several hundred KiB and about 1 MiB; Tab is pressed while no shell is attached (insert held for the next shell) and with a shell attached, right behind a typed line in the same keyboard write, on an empty prompt and in the middle of a half-typed line, with ordinary typed lines before and after; the fake shell (raw TLS, /i/{id} or /io) must receive every typed line once, in the order entered, and every insert as exactly the payload bytes followed by exactly one newline, nothing between or inside; the expected payload bytes are those the same binary prints with -print-ctrl-i for the same source (what the payload is, is another property's business). Engine tabq: the combination and overlap of the two keyboard engines on the real binary started with -ctrl-i <source> (same three kinds of source, grown to 66-130 KiB, 130-400 KiB, 0.4-1.1 MiB and, thorough, 8-60 KiB; detaching sessions 0.2-0.7 MiB, 1-2.2 MiB and 3.5-6 MiB). Sessions of four classes by index: (0) exactly as many lines are pasted as the line queue holds (1024), (1) 1-24 fewer, (3) 1-30 more (the line reader is then stuck before it sees any later key), all while no shell is attached; then Tab is pressed (once, or in a third of the sessions twice in one keyboard write = overlapping inserts; in class 3 sometimes behind one more typed line), 2-5 more lines are typed and in two of three sessions Tab is pressed again (once or twice) between them, all before any shell attaches and all from a goroutine of its own; then a fake shell (raw TLS, /i/{id} or /io) attaches and must receive the pasted lines, then every typed line once and in typed order, and every insert exactly once as the payload followed by exactly one newline with nothing of another entry inside it (an insert is ONE entry), not before the lines typed before its key and, if the terminal had said 'Inserted' for every insert so far before the next line was typed, not after that line; with the shell attached follow a lock-step line, two Tab keys in one write, and a last line. (2) a shell is attached and has read a lock-step line, Tab is pressed, in every other such session 1-3 lines are typed right behind it, the shell reads one line / 2-16 KiB / a third to an eighth of the insert (checked against the payload) and hangs up; after the 'Shell is gone' notice a line is typed, in half of the sessions Tab and another line; the next shell must start at the beginning of an entry - one of the lines typed behind the insert before the gone notice, from which on nothing may be missing, or the first line typed after the notice (or, tolerated, the whole insert once more) - never with the tail of the insert, and must receive everything typed after the notice. Engine gate: who is given the operator's lines when the two halves of a newly arriving request are decided at different moments relative to the leaving of the attached shell. One broker per case; the broker's own schedule points (build tag verif: admit = before the broker lock is taken, release = before a finished half re-takes it, done = lock released, call not yet back in its caller) choose the order. Complete product, 3 (thorough 40) PRNG repetitions each: old shell (none, unidirectional input only / output only / both, bidirectional) x newcomer (one /io request, or an /i and an /o request with a fresh ID), both halves parked at the admission point x which half is decided first x that half's call returning to its caller at once or only after the other half has been decided x the other half decided while the old shell is still attached, inside its tear-down (one half released, the other parked before its release section) or after it has left x how the old shell leaves (input cancelled, output ends, output cancelled, a line's write fails, the /io request's context cancelled); 0-3 numbered lines (payload classes as above, up to 5 KiB) are entered between all steps - one at a time and awaited at a writer while, by the broker's own 'New connection' record, an input is attached, otherwise just queued. Then the newcomer's calls are let go and it hangs up, and the next proper shell (/i or /io) attaches and must be given everything still held and an end marker. Oracle: the replay of all Write/Flush events in global order against the entered sequence as in engine series, plus: the input side of an /io request is not a shell's input stream if it was attached only AFTER the other side of the same request had been refused (already connected / previous shell disconnecting / incorrect key - the operator has been told the connection was rejected); lines written there were taken from the queue and reached no shell (key held-line-given-to-refused-request); an /i request is never discounted for the refusal of an /o request. Whenever the broker reports an input attached, everything entered so far must reach a writer within 10 s with nothing further entered. Engine silence: OPERATOR SILENCE. One shell per case stays attached while the operator enters nothing for 5 s, 12 s, 20 s or 31 s of real time - before the first line, between two lines (1-3 delivered before, 1-3 after) or after the last line before the shell leaves (output ends or the request is cancelled) - at three levels: the broker alone (complete product durations x positions x {/i, /io}; recording writers plain, http.Flusher, FlushError, both, in rotation, thorough: all four; unidirectional with and without an output stream), the real mux on TLS in process (durations x positions; a raw TLS client on /i/{id} or /io counts the body bytes it receives) and the real binary on a pseudo-terminal (lines typed at the prompt; 31 s at each position, thorough: every duration). Lines are what an operator has typed when he falls silent (here-document opened, read/interpreter waiting, empty line) and, below the keyboard, the payload classes of engine series. Every line is awaited at the shell before anything else happens, so at the start of the silence the shell has exactly the entered sequence; after the silence, after every line and after the shell has left it must again have exactly the entered sequence, each line followed by one newline, and not a byte more (key bytes-nobody-entered); at the broker level the shell's writer must not see a Write or Flush call at all during the silence. All cases start together and run beside the other engines; every planned case must complete (floors = the planned numbers). Engines cfghttp and cfgpty: THE CONFIGURATION MATRIX. The workload and oracle of engines http and pty (per generation 0-4 lines entered while no shell is attached, then a client - /i/{id} or /io over raw TLS, or the real curl -N on /i/{id} - attaches and must read them in order, then 3-7 lock-step lines: each entered line must have been READ by the client before the next one is entered and nothing further is sent meanwhile; a line that does not arrive within 20 s with nothing further entered is the violation line-not-pushed-onto-network; lines of 0-200 B and, in process, 3 KB) are repeated under the program's other documented options, which the statement of the property does not mention: -serve-files-from (a directory, a single file, the empty value, a relative name, a ./x/../y/ spelling, a symlink, a name with spaces at both edges, given twice), -one-shell (one generation: the listener is closed when the shell is there), -callback-address (one; three dozen host:port / names / IPv6 literals), -callback-template (regular file, symlink, missing at start-up), -ctrl-i (file, directory, missing, a name containing % verbs and spaces), -tls-certificate-cache (explicit file in a directory that does not exist yet, the default under $XDG_CACHE_HOME, a file inside the served directory), -log, CURLREVSHELL_LOG, -log over CURLREVSHELL_LOG, -no-timestamps, -ipv6-one-liners, -prompt, -listen-address (no port, a host name, given twice) - 30 option forms in 11 families. Cell k < number of forms = that form alone; the further cells are pairs of forms of different families, in an order (and command-line order) drawn from the run's PRNG (quick: 50 cells in process, 48 on the real binary; thorough: every pair). cfghttp: hsrv.Server in process on real TLS, constructed with the parameters main passes for the cell's flags (the 19 forms that are parameters of hsrv.New); cfgpty: the real binary on a pseudo-terminal started with the cell's flags, spelled -f v, -f=v, --f v or --f=v by index, lines typed at the prompt. Every session has one /i and one /io shell (with -one-shell one of the two, by index); both engines run beside the others. Floors: every planned cell completed, every option form counted at least as often as planned (>= 1: its own cell), the planned number of distinct pairs, every spelling, /i, /io and real-curl shells, lines read"
+	r.Assumptions = []string{"a line whose flush failed counts as written (the harness writer has already recorded its bytes)", "engine tab: an insert is entered when its key is processed, but it is queued by a goroutine of its own, so a line typed after Tab is ordered behind the insert only once the insert is known to be queued; the engine therefore types the next line only after the terminal has printed the 'Inserted n bytes' notice (printed after queueing, lib/opshell/insert.go) or after the shell has received the insert; a missing notice is not a verdict (a shell is attached instead and must then receive the insert); a line typed before Tab is queued before the key is processed and must precede the insert", "engine tab: the source files do not change between -print-ctrl-i and the key presses", "engine tabq: as for engine tab, an insert whose 'Inserted' notice has not been seen (it cannot be printed while the queue is full) is not ordered with respect to lines typed after its key: it may arrive behind them, but always whole; two inserts pressed in one write are not ordered with respect to each other (same payload); the number of lines the queue holds (1024) only chooses the workload and what the engine waits for, never a verdict", "engine tabq: a line typed behind an insert while the shell that is reading the insert has not yet been reported gone may have been written to that shell's connection without an error; such lines may therefore be missing from the front of what the next shell receives (only as a run from the insert on), and the partially read insert is not owed to the next shell", "engine gate: parking a connect call at a verif schedule point (all three are outside b.mu) only stretches a window that exists between two instructions of that goroutine; the refused half's call is parked only at done, i.e. after the broker has been unlocked and before ConnectInOut learns that its half has returned", "engine gate: a line entered after the harness has begun to end the old shell may go to the old shell or be held - either is a delivery; a step of the choreography itself (a half reaching its gate, a decision being logged) that does not happen within 10 s makes the case inconclusive, not a violation", "engine silence: the length of the silence is workload (how long the harness refrains from entering anything; time.Sleep never returns early), never a verdict; a Flush call on the shell's writer while every entered line has already been written and flushed puts nothing a shell could read onto the stream, but it is traffic on the input stream nobody entered and is reported under its own key flush-without-input; an input stream that the program itself ends during the silence gives no verdict (inconclusive): the property does not say how long a shell stays", "engines cfghttp/cfgpty: the property does not depend on the configuration (its statement names none), so the oracle is the one of the default configuration; options under which the program never serves a shell are not cells (-icanhazip without a network ends the program at start-up; -print-ctrl-i and -print-default-template print and exit); with -one-shell only the first shell exists, so such a cell has one generation; a missing gone notice between two generations or a server that does not start under a documented option makes the run inconclusive, never a violation; cfghttp passes absolute paths where the operator gave relative ones (the harness process cannot change its working directory), the relative spellings themselves are exercised by cfgpty"}
 	n := r.N(800, 20000)
 	// the cases of engine silence spend most of their time waiting: they run beside all the other engines
 	silenceWait := func() {}
 	if r.WantEngine("silence") {
 		silenceWait = silenceStart(r)
 	}
+	// so do the sessions of the configuration matrix
+	cfgWait := cfgStart(r)
 	if r.WantEngine("series") {
 		mon.Parallel(n, runtime.NumCPU(), func(i int) {
 			if r.Want("series", i) {
@@ -442,6 +444,7 @@ func Run(r *mon.Run) {
 	if r.WantEngine("tabq") {
 		tabqSessions(r)
 	}
+	cfgWait()
 	silenceWait()
 	r.Floor("lines_delivered", 5000)
 	r.Floor("shells", 1000)
